@@ -35,6 +35,10 @@ def g_eq_strategy(topologies=None, with_profiles=True):
             }
         if top in ("udn", "ldn") and draw(st.booleans()):
             eq["delta"] = _round(draw(st.sampled_from([0.001, 0.002, 0.003, 0.005])), 4)
+        if top == "cdn" and draw(st.booleans()):
+            # "connected" double null whose two X-points are at slightly different psi, as every
+            # measured equilibrium has: gridded with nx_inter_sep=0 (sign: which X-point is primary)
+            eq["delta"] = draw(st.sampled_from([1e-4, -1e-4, 2e-4, -2e-4, 4e-4, -4e-4, 8e-4]))
         n = st.sampled_from([49, 57, 65, 65, 81, 97])
         eq["nR"], eq["nZ"] = draw(n), draw(n)
         if with_profiles:
@@ -305,7 +309,10 @@ def c_label(desc):
 def coarse_label(desc):
     o = desc["options"]
     if desc["family"] == "G":
-        return "G/%s/%s" % (desc["eq"]["topology"], "orth" if o.get("orthogonal", True) else "nonorth")
+        top = desc["eq"]["topology"]
+        if top == "cdn" and desc["eq"].get("delta"):
+            top = "cdn~"  # nearly connected: two X-points at slightly different psi
+        return "G/%s/%s" % (top, "orth" if o.get("orthogonal", True) else "nonorth")
     return label(desc)
 
 
@@ -361,7 +368,7 @@ def base_corpus(tier, seed):
     """The shared corpus of complete-grid descriptors (tokamak G family + circular)."""
     from hypothesis import strategies as st
 
-    n_g = 24 if tier == "quick" else 200
+    n_g = 28 if tier == "quick" else 210
     n_c = 4 if tier == "quick" else 30
     g = collect(g_case_strategy(), n_g, seed)
     c = collect(c_case_strategy(), n_c, seed + 1, keyfn=c_label)
